@@ -75,6 +75,10 @@ impl CellType for String {}
 
 // TRUSTED: `#[derive(Clone)]` / `#[derive(Default)]` + `#[default] Empty` on Data and DataRef: the clone equals the original, the default
 // value is `Empty` (Verus adds no specification to these derives by itself: "autoderive Clone impl does not take the form Verus expects")
+// ASSUMED (std): std::mem::take moves the old value out; what is left behind (`T::default()`) is left unconstrained (only weakens the
+// assumption). Lets glue that parks an option and must put it back be checked on every exit instead of being rejected.
+pub assume_specification<T: core::default::Default>[ core::mem::take::<T> ](dest: &mut T) -> (r: T)
+    ensures r == *old(dest);
 pub assume_specification<'a>[ <DataRef<'a> as Default>::default ]() -> (r: DataRef<'a>) ensures r == DataRef::<'a>::Empty;
 pub assume_specification[ <Data as Default>::default ]() -> (r: Data) ensures r == Data::Empty;
 impl CellType for Data {}
